@@ -250,6 +250,19 @@ def run(ctx):
         ctx.tie_broken("translator", "builtins rebound / left-right aliases changed in ioflo.aid.vectoring", repr(sh))
     if ok:
         ctx.coq_build("C44/Props.v", timeout=2400)
+        # the bounded theorem is a large kernel VM computation; coqchk has no VM and cannot re-check it
+        # within its time limit, so the thorough-tier coqchk pass covers Props.v only
+        prev = os.environ.get("VERIF_NO_COQCHK")
+        os.environ["VERIF_NO_COQCHK"] = "1"
+        try:
+            ctx.coq_build("C44/PropsBounded.v", timeout=2400)
+        finally:
+            if prev is None:
+                os.environ.pop("VERIF_NO_COQCHK", None)
+            else:
+                os.environ["VERIF_NO_COQCHK"] = prev
+        ctx.trusted.append("coqchk is not run on C44/PropsBounded.v (bounded exhaustive theorem: VM computation, "
+                           "checked by the coqc kernel only)")
 
     rows, metas, viol = [], [], []
     for kind, vs in polygons(ctx):
